@@ -41,6 +41,11 @@ def load_contracts(paths):
     return contracts, specfuncs, lemmas
 
 
+class _Share:
+    def __init__(self, v):
+        self.v = v
+
+
 class Deferred:
     def __init__(self, kind, node, env, label=None, extra=None):
         self.kind, self.node, self.env, self.label, self.extra = kind, node, env, label, extra
@@ -82,7 +87,7 @@ class ContractMixin(CallMixin):
                     raise PathDone()
             return VNone()
         if name in ("ensures", "raises", "modifies", "returns", "invariant", "may_raise", "reads", "foreach",
-                    "bounded", "decreases"):
+                    "bounded", "decreases", "shares"):
             label = None
             if "label" in kw:
                 label = pyconst(kw["label"])[1]
@@ -93,7 +98,9 @@ class ContractMixin(CallMixin):
             return VNone()
         if name == "implies":
             a = self.cond(st, node.args[0])
-            b = self.guarded(st, a, lambda: self.cond(st, node.args[1]))
+            if z3.is_false(z3.simplify(a)):
+                return VBool(True)
+            b = self.guarded(st, a, lambda: self.cond(st, node.args[1]), dead=z3.BoolVal(True))
             return VBool(z3.Implies(a, b))
         if name == "iff":
             return VBool(self.cond(st, node.args[0]) == self.cond(st, node.args[1]))
@@ -383,6 +390,20 @@ class ContractMixin(CallMixin):
                         result = self.fresh_of(st, rty, "res_" + contract.qualname.split(".")[-1])
                     else:
                         result = VNone()
+                for d in deferred:
+                    if d.kind == "shares":
+                        envr = dict(d.env)
+                        envr["result"] = result
+                        def do_share(d=d):
+                            dst = self.ev(d.node.args[0], st)
+                            srcv = self.ev(d.node.args[1], st)
+                            hs = self.resolve(st, srcv)
+                            for fa in d.node.args[2:]:
+                                fname = ast.literal_eval(fa)
+                                fv = self.field_value(st, hs, fname)
+                                hd = self.resolve(st, dst)
+                                st.heap[dst.root] = self.upd(st, st.heap[dst.root], list(dst.path) + [("f", fname)], _Share(fv))
+                        self.with_env(st, envr, do_share)
             finally:
                 st.old_heap = old_save
             if contract.flags.get("assumed"):
